@@ -153,8 +153,14 @@ def run(C, R):
                 locked = const_of(E, path.facts, ('init', (('P', 'self'), 'is_locked')))
                 fair = const_of(E, path.facts, ('init', (('P', 'self'), 'is_fair')))
                 nonempty = any(isinstance(k, tuple) and k and k[0] == 'qempty' and v == ('eq', 0)
-                               for k, v in path.facts.items())
-                if locked == 1 or (fair == 1 and nonempty):
+                               for k, v in path.facts.items()) or \
+                    any(e['k'] == 'qop' and e['op'].startswith('peek') and e.get('node') is not None
+                        for e in path.events)    # (a peek that returned a node: the queue is not empty)
+                # ... or the path saw a queued waiter that has been handed the turn (Notified): it will lock and unlock
+                handed = any(e['k'] == 'qop' and e['op'].startswith('peek') and e.get('node') is not None and
+                             path.facts.get(('discr', ('init', e['node'] + ('data', 'state')))) == ('eq', 'Notified')
+                             for e in path.events)
+                if locked == 1 or (fair == 1 and nonempty) or handed:
                     R.ok('C03.R7', '%s|parks: %s|%s' % (m['path'], 'mutex locked' if locked == 1 else
                                                           'fair, somebody queued ahead', path_cond(E, path)))
                 else:
